@@ -22,7 +22,7 @@ ASSUMPTIONS = [
 DATA = bytes(range(65, 65 + 12))
 
 
-def send_window(window: int, pktsize: int, n1: int, n2: int, adj: int, stderr2: bool, fin: int) -> bool:
+def send_window(window: int, pktsize: int, n1: int, n2: int, adj: int, stderr2: bool, fin: int, rstate: int = 0) -> bool:
     """Sender: two writes, optionally write_eof()/close(), then a
     WINDOW_ADJUST.  Every DATA packet is non-empty, no larger than the peer's
     packet size or the window at that moment; total sent == min(total
@@ -41,6 +41,9 @@ def send_window(window: int, pktsize: int, n1: int, n2: int, adj: int, stderr2: 
     elif fin == 2:
         chan.close()
     mid = len(conn.sent)
+    # the peer may already have sent EOF for *its* direction (delivered or still queued behind a paused reader):
+    # WINDOW_ADJUST governs our direction and must still be honoured
+    chan._recv_state = pick(['open', 'eof_pending', 'eof'], rstate)
     chan._process_window_adjust(93, 0, SSHPacket(UInt32(adj)))
     pk = split_sent(conn.sent)
     total = d1 + d2
@@ -270,6 +273,11 @@ def stream_pause(window: int, n1: int, n2: int, rd: int) -> bool:
 
 
 OBLIGATIONS = [
+    Ob('adjust_after_eof', send_window,
+       sym=dict(window=R(0, 3), pktsize=R(1, 2), adj=R(0, 4), rstate=R(1, 2)),
+       shards=dict(n1=[3], n2=[0, 2], fin=[0, 1, 2]), fixed=dict(stderr2=False), timeout=150,
+       functions=[CH.SSHChannel._process_window_adjust, CH.SSHChannel._flush_send_buf],
+       bounds='same harness as send_window with the receive side in state eof_pending / eof (peer already sent EOF) when the WINDOW_ADJUST arrives: window 0..3, packet size 1..2, adjust 0..4'),
     Ob('send_window', send_window,
        sym=dict(window=R(0, 5), pktsize=R(1, 4), n1=R(0, 3), n2=R(0, 3), adj=R(0, 4), stderr2=B, fin=R(0, 2)),
        shards=dict(n1=[0, 2, 3, 5], n2=[0, 2], fin=[0, 1, 2]),
